@@ -167,6 +167,9 @@ Qed.
 Lemma bytes_of_vals_len l bs : bytes_of_vals l = Some bs -> length bs = length l.
 Proof. intros H. apply bytes_of_vals_inv in H. subst. now rewrite map_length. Qed.
 
+Lemma oeq_node sz c : oeq (node sz c) c.
+Proof. intros known bs. unfold node. rewrite runo_bind. destruct (runo c known bs); reflexivity. Qed.
+
 (* ---------- the theorem ---------- *)
 Fixpoint nobits (t : ty) : bool :=
   match t with
@@ -259,9 +262,9 @@ Proof.
     cbn [canon]. destruct k.
     + rewrite runo_bind, Hvec. reflexivity.
     + rewrite runo_bind, Hvec. reflexivity.
-    + rewrite !runo_emit, runo_bind, Hitems. reflexivity.
-    + rewrite !runo_emit, runo_bind, Hitems. cbn [bindp runo is_keyed]. now rewrite canon_set_id.
-    + rewrite !runo_emit, runo_bind, Hitems. cbn [bindp runo is_keyed]. now rewrite canon_set_id.
+    + rewrite !runo_emit, runo_bind, (oeq_rep _ _ _ _ (oeq_node sz (dec t))), Hitems. reflexivity.
+    + rewrite !runo_emit, runo_bind, (oeq_rep _ _ _ _ (oeq_node sz (dec t))), Hitems. cbn [bindp runo is_keyed]. now rewrite canon_set_id.
+    + rewrite !runo_emit, runo_bind, (oeq_rep _ _ _ _ (oeq_node sz (dec t))), Hitems. cbn [bindp runo is_keyed]. now rewrite canon_set_id.
   - (* TStr *) intros _ _ [ | | | | | | |l| | | ] bs; cbn [wf enc]; try discriminate.
     intros Hw He known rest. apply andb_prop in Hw as [Hn Hu].
     destruct (bytes_of_vals l) as [bl|] eqn:Eb; [|discriminate].
